@@ -609,6 +609,9 @@ def check(ctx):
     # positional and keyword arguments included): a mangled call fails with
     # TypeError before anything is decided (= C07.AUTHORIZE)
     ctx.borrow('C14.SURFACE', c07.check_authorize, only=['C07.AUTHORIZE'])
+    # ... and the debug-only branch can fail in no way a caller sees: its
+    # serialisation of target and credentials is caught broadly (= C07.DEBUG)
+    ctx.borrow('C14.SURFACE', c07.check_debug, only=['C07.DEBUG'])
     # ... including the documented InvalidContextObject for credentials that
     # are neither a context nor a mutable mapping (= C08.CREDS)
     from . import c08
